@@ -25,6 +25,7 @@ impl World {
         let d = m.allocation_debt();
         m.adjust_debt(target - d);
         let rt = &mut self.rt[a as usize];
+        rt.debt_scale = rt.debt_scale.max(1048576.0).max((target - d).abs());
         rt.neg_adjust = true;
         rt.wake = None;
         rt.sleep = None;
@@ -56,6 +57,7 @@ impl World {
         let count0 = m.total_gc_count();
         self.observe_state(a, 0xC0);
 
+        self.shield(&protect, &weak_protect);
         let res = {
             let slot = self.arenas[a as usize].as_mut().unwrap();
             let _c = seam::enter(seam::CTX_COLLECT, a as u16);
@@ -79,12 +81,16 @@ impl World {
                 })
             })
         };
+        self.unshield();
         self.process_events(&protect, &weak_protect);
+        if matches!(res, Caught::Stopped) && self.ok() {
+            self.violate("H.stopped", "a destructor stopped the run but no oracle explains why".into());
+        }
         let faulted = tok::faults_fired() != fired0;
         self.stats.faults_fired += tok::faults_fired() - fired0;
         let some = match res {
             Caught::Ok(s) => s,
-            Caught::Injected => false,
+            Caught::Injected | Caught::Stopped => false,
             Caught::Unexpected(msg) => {
                 self.violate("C10.panic", format!("{call:?} on arena {a} (phase {}) panicked: {msg}", phase_name(p)));
                 return;
@@ -121,6 +127,12 @@ impl World {
             rt.dead_set = None;
         }
         let unwound = matches!(res, Caught::Injected);
+        if !unwound && (tok::faults_fired() > 0 || self.stats.callback_panics > 0 || self.stats.ctor_failures > 0) {
+            self.stats.flag("C11.collect-after-fault");
+        }
+        if self.live_arenas().iter().filter(|x| self.phase(**x) != Phase::Sleeping).count() >= 2 {
+            self.stats.flag("C20.two-mid-cycle");
+        }
 
         // ---- C08: phase protocol
         if !unwound {
@@ -333,6 +345,22 @@ impl World {
         Some(r)
     }
 
+    /// Tell the seams what the call about to be made must not destruct or release.
+    fn shield(&mut self, protect: &BTreeSet<Id>, weak_protect: &BTreeSet<Id>) {
+        let mut toks = vec![];
+        for i in protect {
+            if let Some(o) = self.sh.objs.get(i) {
+                toks.extend(o.toks.iter().copied());
+            }
+        }
+        tok::set_protected(toks);
+        seam::set_protected(protect.iter().chain(weak_protect.iter()).copied());
+    }
+    fn unshield(&mut self) {
+        tok::clear_protected();
+        seam::clear_protected();
+    }
+
     fn marked_start_sweeping(&mut self, a: Aid) {
         let (protect, weak_protect) = self.protection(a);
         let r = self.reacquire_marked(a, |_me, slot| {
@@ -359,7 +387,7 @@ impl World {
                 self.sigmix(0xC9);
             }
             Some(Caught::Ok(false)) => self.violate("C08.option", "the arena was Marked but mark_debt returned no MarkedArena".into()),
-            Some(Caught::Injected) => {}
+            Some(Caught::Injected) | Some(Caught::Stopped) => {}
             Some(Caught::Unexpected(m)) => self.violate("C10.panic", format!("start_sweeping panicked: {m}")),
             None => {}
         }
@@ -405,7 +433,7 @@ impl World {
                 self.violate("C08.option", "the arena was Marked but mark_debt returned no MarkedArena".into());
                 return;
             }
-            Caught::Injected => None,
+            Caught::Injected | Caught::Stopped => None,
             Caught::Unexpected(msg) => {
                 self.violate("C10.panic", format!("a finalize callback call panicked: {msg}"));
                 return;
@@ -541,7 +569,7 @@ impl World {
     }
 
     pub fn run_suffix(&mut self, suffix: Suffix) {
-        self.ev_index = usize::MAX / 2; // "in the suffix"
+        // events of the suffix are numbered after the recorded ones
         match suffix {
             Suffix::None => {}
             Suffix::Settle => {
